@@ -59,6 +59,8 @@ EXPR_POOL = ["( [a] = 1 )", "( ( [a] = 1 ) AND ( [b] = 2 ) )", "( ( [pop] > 100 
 EXPR_POOL += ['( "[note]" = "closed :-)" )', "( '[code]' ~ '^A(1' )", "(([a] + 1) * ([b] + 2))", "( ( [a] = 1 ) AND ( [b] = `(x` ) )"]
 EXPR_POOL = [e for e in EXPR_POOL if "NOT" not in e]
 CHAR_POOL = ["x", "D", "\u00e9", "7", "\u00df", "\ufb01", "|"]
+# case-insensitive string comparisons: stored and printed verbatim, quotes and trailing i included
+ISTRING_POOL = ['"north"i', "'aitkin'i", '"Main St"i', "'x'i"]
 # list expressions: elements are kept verbatim (zero-padded codes, trailing zeros, signs, booleans, phrases)
 LIST_POOL = ["{a,b}", "{01,02,10}", "{1.50,2.00}", "{+3,-5}", "{TRUE,false}", "{A\u00e9rodrome,Base spatiale}", "{bla,d'apostrophe}", "{1e3,x_1}"]
 KVKEY_POOL = ["wms_title", "OWS_Enable_Request", "Qstring", "default_BASE", "wfs_SRS", "gml_Include_Items", "key-1", "a:b"]
@@ -131,6 +133,7 @@ class Concretiser:
         self.exprs = perm(EXPR_POOL) if exprs is None else list(exprs)
         self.chars = perm(CHAR_POOL)
         self.lists = perm(LIST_POOL)
+        self.istrings = perm(ISTRING_POOL)
         self.kvkeys = perm(KVKEY_POOL)
         self.cfgkeys = perm(CFGKEY_POOL)
         self.salt = r.randrange(1 << 30)
@@ -162,6 +165,8 @@ class Concretiser:
             return self._pick(self.exprs, v["id"])
         if sh == "listexpr":
             return self._pick(self.lists, v["id"])
+        if sh == "istring":
+            return self._pick(self.istrings, v["id"])
         if sh == "int":
             return self._pick(self.ints, v["id"])
         if sh == "float":
